@@ -4,6 +4,7 @@ import (
 	"bytes"
 	"crypto/rand"
 	"errors"
+	"fmt"
 	"math"
 	"math/big"
 	mrand "math/rand"
@@ -96,9 +97,18 @@ func (qfs QUICFrames) build(cryptoData []byte, baseOffset uint64) (payload []byt
 		var frameBytes []byte
 		if offset, length, cryptoOK := frame.CryptoFrameInfo(); cryptoOK {
 			lengthOffset := offset - lowestOffset
+			// A layout that doesn't fit the CRYPTO data it is handed (a later, shorter datagram
+			// of a multi-datagram ClientHello, a retransmitted piece) is an error, not a panic,
+			// and must not be sent zero-extended.
+			if lengthOffset < 0 || lengthOffset > len(cryptoData) {
+				return nil, fmt.Errorf("QUICFrames: CRYPTO frame at offset %d starts outside the %d bytes of CRYPTO data", offset, len(cryptoData))
+			}
 			if length == 0 {
 				// calculate length: from offset to the end of cryptoData
 				length = len(cryptoData) - lengthOffset
+			}
+			if length < 0 || lengthOffset+length > len(cryptoData) {
+				return nil, fmt.Errorf("QUICFrames: CRYPTO frame at offset %d with length %d exceeds the %d bytes of CRYPTO data", offset, length, len(cryptoData))
 			}
 			frameBytes = []byte{0x06} // CRYPTO frame type
 			// Wire offset = local offset + baseOffset for correct multi-datagram stream positioning.
